@@ -68,6 +68,8 @@ class Gen:
         r, dup = self.r, self.case['dups']
         k = r.random()
         if dup and k < 0.12:
+            if 0 not in self.used:
+                self.used.append(0)         # the default hash of every unnamed particle is a hash like any other: looked up and removed by value
             return 0
         if dup and k < 0.3 and self.used:
             return r.choice(self.used)
